@@ -63,7 +63,7 @@ SHARDS = {"quick": 4, "thorough": 16}
 def medoid_case(draw, max_n=40, max_d=4, min_n=3, starts=("inds", "state", "all", "cold"),
                 drives=("proposals", "seed"), entries=("kmedoids",), max_sweeps=5):
     entry = draw(st.sampled_from(list(entries)))
-    metric = draw(st.sampled_from(list(rc.METRICS)))
+    metric = draw(st.sampled_from(list(rc.METRICS_SELF_NONZERO)))
     start = draw(st.sampled_from(list(starts)))
     drive = draw(st.sampled_from(list(drives)))
     if entry == "KMedoids.fit":
@@ -74,7 +74,7 @@ def medoid_case(draw, max_n=40, max_d=4, min_n=3, starts=("inds", "state", "all"
     kcls = draw(st.sampled_from(["few", "any", "few"]))
     k = draw(st.integers(1, kmax if kcls == "any" else max(1, min(kmax, 4))))
     case = {"data": None, "metric": metric, "entry": entry, "start": start, "drive": drive, "k": k,
-            "sweeps": draw(st.integers(1, max_sweeps)), "seed": draw(st.integers(0, 2 ** 31 - 1)),
+            "sweeps": draw(st.integers(1, max_sweeps)), "seed": draw(st.one_of(st.sampled_from([0, 0, 1]), st.integers(0, 2 ** 31 - 1))),
             "g1": draw(st.integers(0, 2 ** 31 - 1)), "g2": draw(st.integers(0, 2 ** 31 - 1)),
             "centers": None, "proposals": None,
             "container": draw(st.sampled_from(["list", "ndarray", "pairs"])),
@@ -107,7 +107,7 @@ def hybrid_case(draw, max_n=40, max_d=4, min_n=3):
         init = draw(st.lists(st.integers(0, n - 1), min_size=m, max_size=m, unique=True))
     stop = draw(st.sampled_from(["n", "radius", "both"]))
     case = {"data": None, "metric": metric, "entry": entry, "init": init, "n_clusters": None, "radius_frac": None,
-            "sweeps": draw(st.integers(1, 5)), "seed": draw(st.integers(0, 2 ** 31 - 1)),
+            "sweeps": draw(st.integers(1, 5)), "seed": draw(st.one_of(st.sampled_from([0, 0, 1]), st.integers(0, 2 ** 31 - 1))),
             "rs_kind": draw(st.sampled_from(["int", "RandomState"])) if entry == "hybrid" else "int",
             "g1": draw(st.integers(0, 2 ** 31 - 1)), "g2": draw(st.integers(0, 2 ** 31 - 1))}
     if stop in ("n", "both"):
